@@ -72,6 +72,10 @@ func c17Universe() []numVal {
 	out = append(out,
 		numVal{"s3", "3", rat(3, 1), "numstr", `"3"`}, numVal{"sm2", "-2", rat(-2, 1), "numstr", `"-2"`},
 		numVal{"s1_5", "1.5", rat(3, 2), "numstr", `"1.5"`}, numVal{"s0", "0", rat(0, 1), "numstr", `"0"`},
+		// zero-padded spellings are decimal (ids, months, prices read from text): never octal
+		numVal{"s010", "010", rat(10, 1), "numstr", `"010"`}, numVal{"s0100", "0100", rat(100, 1), "numstr", `"0100"`}, numVal{"s0012", "0012", rat(12, 1), "numstr", `"0012"`},
+		numVal{"s007", "007", rat(7, 1), "numstr", `"007"`}, numVal{"s00_5", "00.5", rat(1, 2), "numstr", `"00.5"`}, numVal{"sm010", "-010", rat(-10, 1), "numstr", `"-010"`},
+		numVal{"s0777", "0777", rat(777, 1), "numstr", `"0777"`},
 		numVal{"sabc", "abc", nil, "badstr", `"abc"`}, numVal{"sempty", "", nil, "badstr", `""`},
 		numVal{"nil", nil, nil, "nil", "nil"})
 	return out
